@@ -64,6 +64,9 @@ type Env struct {
 
 var authority = authtypes.NewModuleAddress("gov")
 
+// Tracer is the node-local `evm.tracer` setting (app.toml / --evm.tracer) the next environment is built with.
+var Tracer = ""
+
 // New creates an environment whose bank ledger knows the given denominations
 // (the EVM denomination is always the first one).
 func New(extraDenoms ...string) *Env { return NewAt(1_700_000_000, extraDenoms...) }
@@ -86,7 +89,7 @@ func NewAt(blockTime int64, extraDenoms ...string) *Env {
 	}
 	model.SetNextAccountNumberCompat(e.Ctx, e.AK, 1000)
 	e.FM = &FeeMarket{Params: feemarkettypes.Params{BaseFee: sdkmath.ZeroInt(), MinGasPrice: sdkmath.LegacyZeroDec()}}
-	e.EK = evmkeeper.NewKeeper(model.CodecFor(e.AK), EvmKey, EvmTKey, authority, e.AK, e.BK, nil, e.FM, "", paramstypes.Subspace{})
+	e.EK = evmkeeper.NewKeeper(model.CodecFor(e.AK), EvmKey, EvmTKey, authority, e.AK, e.BK, nil, e.FM, Tracer, paramstypes.Subspace{})
 	e.CK = cpckeeper.NewKeeper(model.CodecFor(e.AK), CpcKey, authority, e.AK, e.BK, stakingkeeper.Keeper{}, distkeeper.Keeper{})
 	if err := e.CK.SetParams(e.Ctx, cpctypes.DefaultParams()); err != nil {
 		panic(err)
